@@ -26,7 +26,7 @@ REQUIRED_FEATURES = ["op:create-a", "op:create-w", "op:recreate-occupied", "op:c
                      "op:ln-hard", "op:ln-soft", "op:ln-external", "op:cp-onto-occupied", "op:cp-overwrite",
                      "via:cli", "via:api", "uri:no-leading-slash", "is_cooler:missing-group", "is_cooler:missing-file",
                      "is_cooler:non-hdf5", "is_cooler:dataset-path", "op:cp-to-root", "op:mv-onto-occupied",
-                     "op:ln-onto-occupied", "op:mv-spelling", "op:samefile-overwrite", "is_cooler:dangling-link", "op:mv-cross-file",
+                     "op:ln-onto-occupied", "op:mv-spelling", "op:samefile-overwrite", "is_cooler:dangling-link", "op:mv-cross-file", "wholefile:cp", "wholefile:mv",
                      "layout:second-file-behind-symlinked-directory"]
 
 PATHS = ["/a", "/b", "/g/x", "/g/y", "/h", "/k/deep/z", "/a_old", "/g/x2"]      # incl. names that extend another name
@@ -35,11 +35,18 @@ PATHS = ["/a", "/b", "/g/x", "/g/y", "/h", "/k/deep/z", "/a_old", "/g/x2"]      
 def plan(tier, seed):
     n = 16 if tier == "quick" else 48
     per = 25 if tier == "quick" else 150
-    return [{"kind": "hist", "sub": i, "cases": per} for i in range(n)]
+    return [{"kind": "hist", "sub": i, "cases": per} for i in range(n)] + \
+           [{"kind": "wholefile", "sub": 800 + i, "cases": 8 if tier == "quick" else 60} for i in range(1 if tier == "quick" else 3)]
 
 
 def run(ctx, shard):
     probes.activate(ctx)
+    if shard["kind"] == "wholefile":
+        for i in range(shard["cases"]):
+            cid = f"wf:{shard['sub']}:{i}"
+            if ctx.want(cid):
+                whole_file(ctx, cid, ctx.rng("wf", shard["sub"], i), i)
+        return
     rng0 = ctx.rng("plan", shard["sub"])
     for i in range(shard["cases"]):
         seedk = int(rng0.integers(2**31))
@@ -552,3 +559,70 @@ def verify(c, M, files, fileops, runner, cli, rng, hist):
         r = f"raises {type(e).__name__}"
     c.check(r is False, "is_cooler-non-hdf5", f"is_cooler on a non-HDF5 file -> {r}")
     return ok
+
+
+def whole_file(ctx, cid, rng, idx):
+    """cp / mv of a ROOT collection onto the free ROOT of another, existing file that holds other collections at
+    nested paths (both URIs plain file names, `f::` or `f::/`): the destination root reads as the source, everything
+    else in the destination file stays, the source stays (cp) or is gone (mv)."""
+    import cooler
+    from click.testing import CliRunner
+    from cooler import fileops
+    from cooler.cli import cli
+
+    d = ctx.newdir()
+    S, D = os.path.join(d, "S.cool"), os.path.join(d, "D.cool")
+    bt = gen.gen_bt(rng, None, max_chroms=2, max_bins=6)
+    n = gen.bt_nbins(bt)
+    make_cooler(S, bt, gen.gen_pixels(rng, n, True, "sparse70") or {(0, 0): 2})
+    keep = ["/keep/me", "/other"][: int(rng.integers(1, 3))]
+    for j, kp in enumerate(keep):
+        make_cooler(D + "::" + kp, bt, {(0, 0): 5 + j}, mode="a")
+    with h5py.File(D, "r+") as f:
+        f.create_group("notes").attrs["who"] = "me"
+        f["notes"].create_dataset("v", data=np.arange(3))
+    op = ["cp", "mv"][idx % 2]
+    via = "cli" if rng.random() < 0.4 else "api"
+    sp = lambda p_: [p_, p_ + "::", p_ + "::/"][int(rng.integers(3))]  # noqa
+    su, du = sp(S), sp(D)
+    with ctx.case(cid, {"op": op, "via": via, "src": rel(su), "dst": rel(du), "dest_holds": keep}) as c:
+        c.feature(f"wholefile:{op}", "via:" + via)
+        src_digest = digest(S, "/")
+        a_ = cooler.Cooler(S)
+        src_px, src_bins, src_info = a_.pixels()[:], a_.bins()[:], a_.info
+        del a_
+        kept = {kp: digest(D, kp) for kp in keep}
+        raised = None
+        try:
+            if via == "cli":
+                r = CliRunner().invoke(cli, [op, su, du])
+                if r.exit_code != 0:
+                    raised = type(r.exception).__name__
+            else:
+                getattr(fileops, op)(su, du)
+        except Exception as e:  # noqa
+            raised = type(e).__name__
+        if raised:
+            c.feature(f"wholefile:{op}:refused")
+            c.check(sorted(fileops.list_coolers(D)) == sorted(keep) and all(digest(D, kp) == kept[kp] for kp in keep)
+                    and digest(S, "/") == src_digest, "wholefile-refused-but-changed",
+                    f"{op} {rel(su)} {rel(du)} raised {raised} and still changed a file")
+        else:
+            got = sorted(fileops.list_coolers(D))
+            c.check(got == sorted(keep + ["/"]), "wholefile-destination-lost-collections",
+                    f"after {op} {rel(su)} {rel(du)} the destination file lists {got}; it held {keep} and gains '/'")
+            for kp in keep:
+                if kp in got:
+                    c.check(digest(D, kp) == kept[kp], "wholefile-neighbour-changed", f"{kp} of the destination file changed")
+            with h5py.File(D, "r") as f:
+                c.check("notes" in f and f["notes"].attrs.get("who") == "me" and f["notes/v"][:].tolist() == [0, 1, 2],
+                        "wholefile-foreign-content-lost", "an unrelated group of the destination file is gone or changed")
+            if "/" in got:
+                b = cooler.Cooler(D)
+                c.check(src_px.equals(b.pixels()[:]) and src_bins.equals(b.bins()[:]) and src_info == b.info,
+                        "wholefile-root-not-a-copy", "destination root does not read as the source did")
+            if op == "mv":
+                c.check(not fileops.is_cooler(S), "wholefile-move-left-source", "the source root is still a cooler after mv")
+            else:
+                c.check(digest(S, "/") == src_digest, "wholefile-copy-changed-source", "cp changed its source")
+        c.nontrivial("wholefile", op, via, rel(su), rel(du), repr(keep))
